@@ -17,10 +17,11 @@ RULE = ('seeded encoder: payload 0..400 bytes (some up to 200 kB) rich in CR/LF/
         'long units: 300 one-byte / 210 two-byte chunks (over 1000 reads per body) with late cuts and late broken data terminators, and peers that '
         'fall silent for 2.5..400 s of virtual time (vmon/vclock.py, nothing sleeps) before a cut. '
         'Non-trivial = encodings with >=1 data chunk, prefixes/corruptions always; distinct = distinct (bytes, buffer, policy).')
-REQUIRED = ['legal_exact', 'prefix_rejected', 'corruption_rejected', 'corruption_accepted', 'short_read_decodes',
+PYOPT = {'quick': 1, 'thorough': 1}     # one unit of every kind is also served by an interpreter started with -O (assert statements compiled out)
+REQUIRED = ['units_run_under_python_-O', 'legal_exact', 'prefix_rejected', 'corruption_rejected', 'corruption_accepted', 'short_read_decodes',
             'wsgi_decodes', 'cut_in_size_line', 'cut_in_data', 'cut_after_data_cr', 'cut_in_last_chunk_line',
             'data_crlf_corruption_rejected', 'chunk_larger_than_buffer', 'with_extension', 'with_trailer',
-            'stalled_peer_decodes', 'decodes_with_1000_or_more_reads']
+            'stalled_peer_decodes', 'decodes_with_1000_or_more_reads', 'chunked_bodies_declared_multipart']
 ASSUMPTIONS = ['wsgi.input.read(n) may return 1..n bytes while data is available (PEP 3333)',
                'exact decoding is demanded only when every size line (digits+extension+CRLF) fits the configured buffer, '
                'which bounds the size-line scan by design; longer size lines must give exact acceptance or a client error',
@@ -33,6 +34,22 @@ def plan(tier, seed):
     if tier == 'quick':
         return [{'kind': 'enc', 'n': 6, 'sub': i, 'big': 0} for i in range(8)] + [{'kind': 'long', 'n': 12}]
     return [{'kind': 'enc', 'n': 30, 'sub': i, 'big': 2} for i in range(48)] + [{'kind': 'long', 'n': 60, 'sub': i} for i in range(6)]
+
+
+MP_CTYPE = 'multipart/form-data; boundary=XbX'
+
+
+def gen_multipart_payload(rng):
+    """a well-formed form upload, with or without an epilogue after the closing delimiter"""
+    out = b''
+    for i in range(rng.randint(1, 3)):
+        if rng.random() < 0.5:
+            out += b'--XbX\r\nContent-Disposition: form-data; name="t%d"\r\n\r\n' % i + rng.choice([b'v', b'text value', b'', b'a\r\nb']) + b'\r\n'
+        else:
+            out += (b'--XbX\r\nContent-Disposition: form-data; name="f%d"; filename="f.bin"\r\nContent-Type: application/octet-stream\r\n\r\n' % i
+                    + rng.choice([b'DATA', b'\x00\xff', bytes(range(40))]) + b'\r\n')
+    out += b'--XbX--' + rng.choice([b'', b'\r\n', b'\r\n', b'\r\nepilogue text that follows the form\r\n'])
+    return out
 
 
 def gen_payload(rng, big=False):
@@ -163,7 +180,7 @@ def decode_direct(enc, buf, pdesc):
 _apps = {}
 
 
-def decode_wsgi(enc, buf, pdesc):
+def decode_wsgi(enc, buf, pdesc, ctype=None):
     import ombott
     app = _apps.get(buf)
     if app is None:
@@ -174,7 +191,7 @@ def decode_wsgi(enc, buf, pdesc):
             return app.request.body.read()
     st = RecStream(enc, mk_policy(pdesc))
     st.stalls = stalls_of(pdesc)
-    env = make_environ('POST', '/c', stream=st, chunked=True, content_length=None)
+    env = make_environ('POST', '/c', stream=st, chunked=True, content_length=None, content_type=ctype)
     sc = steps()
     sc.arm(budget(enc) + 20000)
     r = call_app(app, env)
@@ -229,10 +246,14 @@ def ref_decode(enc):
         pos += size + 2
 
 
-def check_one(ctx, enc, buf, pdesc, mode, expect, payload, fits, what, extra=''):
+def check_one(ctx, enc, buf, pdesc, mode, expect, payload, fits, what, extra='', ctype=None):
     """expect: 'exact' | 'reject' | 'any'"""
-    dec = decode_wsgi if mode == 'wsgi' else decode_direct
-    verdict, val, st = dec(enc, buf, pdesc)
+    if mode == 'wsgi':
+        verdict, val, st = decode_wsgi(enc, buf, pdesc, ctype)
+        if ctype:
+            ctx.count('chunked_bodies_declared_multipart')
+    else:
+        verdict, val, st = decode_direct(enc, buf, pdesc)
     short = any(0 < ret < req for req, ret in st.reads)
     if short:
         ctx.count('short_read_decodes')
@@ -240,7 +261,7 @@ def check_one(ctx, enc, buf, pdesc, mode, expect, payload, fits, what, extra='')
         ctx.count('wsgi_decodes')
     wit = {'unit': {'kind': 'one', 'enc': enc.decode('latin1'), 'buf': buf, 'policy': list(pdesc), 'mode': mode,
                     'expect': expect, 'payload': payload.decode('latin1') if payload is not None else None,
-                    'fits': fits, 'what': what}}
+                    'fits': fits, 'what': what, 'ctype': ctype}}
     if st.stalls:
         ctx.count('stalled_peer_decodes')
     if len(st.reads) >= 1000:
@@ -286,6 +307,10 @@ def enc_unit(ctx, unit):
     for ei in range(unit['n'] + unit['big']):
         big = ei >= unit['n']
         payload = gen_payload(rng, big)
+        ctype = None
+        if not big and ei % 3 == 2:
+            # the same framing rules hold when the body is declared a form upload (the form scanner runs beside the decoder)
+            payload, ctype = gen_multipart_payload(rng), MP_CTYPE
         enc, roles, meta = encode(rng, payload, max_chunks=8 if not big else 5)
         if meta['ext']:
             ctx.count('with_extension')
@@ -302,8 +327,8 @@ def enc_unit(ctx, unit):
             for pdesc in ([('full', None), ('one', None), pick_policy(rng, buf)] if not big else [('full', None), pick_policy(rng, buf)]):
                 if big and pdesc[0] == 'one':
                     continue
-                mode = 'wsgi' if rng.random() < 0.3 else 'direct'
-                check_one(ctx, enc, buf, pdesc, mode, 'exact', payload, fits, 'legal')
+                mode = 'wsgi' if rng.random() < (0.3 if ctype is None else 0.7) else 'direct'
+                check_one(ctx, enc, buf, pdesc, mode, 'exact', payload, fits, 'legal', ctype=ctype)
                 ctx.case((enc, buf, repr(pdesc), mode), nontrivial=bool(meta['chunks']))
         if len(ctx.samples) < 4:
             ctx.sample({'encoding': enc[:120].decode('latin1'), 'chunks': meta['chunks'], 'payload_len': len(payload)})
@@ -315,15 +340,15 @@ def enc_unit(ctx, unit):
             role = roles[cut]   # role of the first missing byte
             buf = rng.choice([16, 64, 1024]) if meta['max_size_line'] <= 16 else 1024
             pdesc = pick_policy(rng, buf)
-            mode = 'wsgi' if cut % 5 == 0 else 'direct'
+            mode = 'wsgi' if (cut % 5 == 0 or (ctype and cut % 5 != 1)) else 'direct'
             if cut < meta['last_line_end']:
-                check_one(ctx, pre, buf, pdesc, mode, 'reject', payload, True, 'prefix-cut-before-last-chunk', f'[cut={cut} at {role}]')
+                check_one(ctx, pre, buf, pdesc, mode, 'reject', payload, True, 'prefix-cut-before-last-chunk', f'[cut={cut} at {role}]', ctype=ctype)
                 ctx.count({'size': 'cut_in_size_line', 'ext': 'cut_in_size_line', 'scr': 'cut_in_size_line', 'slf': 'cut_in_size_line',
                            'data': 'cut_in_data', 'dcr': 'cut_before_data_cr', 'dlf': 'cut_after_data_cr',
                            'last': 'cut_in_last_chunk_line', 'lext': 'cut_in_last_chunk_line', 'lcr': 'cut_in_last_chunk_line',
                            'llf': 'cut_in_last_chunk_line'}[role])
             else:
-                check_one(ctx, pre, buf, pdesc, mode, 'any', payload, True, 'prefix-after-last-chunk-line', f'[cut={cut}]')
+                check_one(ctx, pre, buf, pdesc, mode, 'any', payload, True, 'prefix-after-last-chunk-line', f'[cut={cut}]', ctype=ctype)
             ctx.case((pre, buf, repr(pdesc), mode))
         # (c) single-byte substitutions of framing bytes
         for pos, role in enumerate(roles):
@@ -335,12 +360,12 @@ def enc_unit(ctx, unit):
                 cor = enc[:pos] + sym + enc[pos + 1:]
                 buf = rng.choice([16, 64, 1024])
                 pdesc = pick_policy(rng, buf)
-                mode = 'wsgi' if (pos + sym[0]) % 7 == 0 else 'direct'
+                mode = 'wsgi' if ((pos + sym[0]) % 7 == 0 or (ctype and (pos + sym[0]) % 2)) else 'direct'
                 if role in ('dcr', 'dlf'):
                     check_one(ctx, cor, buf, pdesc, mode, 'reject', payload, True,
-                              'chunk-data-not-followed-by-CRLF', f'[pos={pos} {role}->{sym!r}]')
+                              'chunk-data-not-followed-by-CRLF', f'[pos={pos} {role}->{sym!r}]', ctype=ctype)
                 else:
-                    check_one(ctx, cor, buf, pdesc, mode, 'any', payload, True, f'corrupt-{role}', f'[pos={pos} ->{sym!r}]')
+                    check_one(ctx, cor, buf, pdesc, mode, 'any', payload, True, f'corrupt-{role}', f'[pos={pos} ->{sym!r}]', ctype=ctype)
                 ctx.case((cor, buf, repr(pdesc), mode))
         ctx.count('encodings')
 
@@ -393,5 +418,5 @@ def run_unit(ctx, unit):
     else:
         payload = unit['payload'].encode('latin1') if unit['payload'] is not None else None
         v = check_one(ctx, unit['enc'].encode('latin1'), unit['buf'], tuple(unit['policy']), unit['mode'],
-                      unit['expect'], payload, unit['fits'], unit['what'])
+                      unit['expect'], payload, unit['fits'], unit['what'], ctype=unit.get('ctype'))
         print('  outcome:', v)
